@@ -24,8 +24,32 @@ func c07Profile(variant string, faults bool, early bool) func(c *sim.RunCtx) {
 		t := c.T.Plan
 		pp := drawPersistPlan(t, variant, faults, true)
 		cfg := pp.cfg
+		if wconfigPossible(cfg) && cfg.Disk && t.Chance(1, 3) {
+			// the wiring of new_blob_access.go itself: both syncer routines, the
+			// data syncer, the minimum epoch interval taken from the
+			// configuration message, the 10 s error retry interval. Observed at
+			// the media (device Sync calls, state directory operations), the
+			// clock (timers) and the termination group.
+			cfg.WConfig = true
+			if !cfg.Hier {
+				cfg.KeyFormat = 0
+			}
+			cfg.RetryIvl = 10 * time.Second
+		}
 		c.Sample["config"] = cfg.String()
 		c.Note("cfg %s faults=%v", cfg, faults)
+		// media-level log (both modes): Sync calls of the data device and
+		// operations on the state directory
+		type mediaSync struct {
+			StartSeq, DoneSeq int
+			StartT, DoneT     time.Duration
+		}
+		type mediaEv struct {
+			Seq int
+			T   time.Duration
+		}
+		var msyncs []*mediaSync
+		var mcreates, mcommits []mediaEv
 		model := &storeModel{cfg: cfg, objs: pp.objs, byTag: map[int]*upload{}}
 		m := newMedia(cfg)
 		before := gatherMetrics().indexDiscards("sim")
@@ -48,24 +72,48 @@ func c07Profile(variant string, faults bool, early bool) func(c *sim.RunCtx) {
 			script: func(l *lifetime) {
 				w := l.w
 				e := w.e
-				// observe block-release wake-ups: the channel handed out by the
-				// block list becomes closed when a block awaits release
-				wasClosed := false
-				prevHook := w.s.StepHook
-				w.s.StepHook = func() {
-					if prevHook != nil {
-						prevHook()
+				m.data.OnSyncStart = func() {
+					msyncs = append(msyncs, &mediaSync{StartSeq: w.s.Steps, StartT: w.s.Now()})
+				}
+				m.data.OnSyncDone = func() {
+					if n := len(msyncs); n > 0 && msyncs[n-1].DoneSeq == 0 {
+						msyncs[n-1].DoneSeq, msyncs[n-1].DoneT = w.s.Steps, w.s.Now()
 					}
-					cl := chanClosedNoBlock(e.pbl.GetBlockReleaseWakeup())
-					if cl && !wasClosed {
-						releases = append(releases, relEvent{w.s.Steps, w.s.Now()})
+				}
+				m.dir.OnOp = func(kind string) {
+					switch kind {
+					case "create":
+						mcreates = append(mcreates, mediaEv{w.s.Steps, w.s.Now()})
+					case "dirsync":
+						mcommits = append(mcommits, mediaEv{w.s.Steps, w.s.Now()})
 					}
-					wasClosed = cl
+				}
+				if e.pbl != nil {
+					// observe block-release wake-ups: the channel handed out by the
+					// block list becomes closed when a block awaits release
+					wasClosed := false
+					prevHook := w.s.StepHook
+					w.s.StepHook = func() {
+						if prevHook != nil {
+							prevHook()
+						}
+						cl := chanClosedNoBlock(e.pbl.GetBlockReleaseWakeup())
+						if cl && !wasClosed {
+							releases = append(releases, relEvent{w.s.Steps, w.s.Now()})
+						}
+						wasClosed = cl
+					}
 				}
 				w.onPutDone = func(op *storeOp, u *upload, err error) {
 					if err == nil {
 						g := w.s.Cur().ID
-						acks = append(acks, ack{u, e.finalizeSeq[g], e.finalizeTime[g]})
+						if cfg.WConfig {
+							// (black box: the upload returned now; in the timed
+							// profiles no simulated time passes inside an upload)
+							acks = append(acks, ack{u, w.s.Steps, w.s.Now()})
+						} else {
+							acks = append(acks, ack{u, e.finalizeSeq[g], e.finalizeTime[g]})
+						}
 					}
 				}
 				l.runClients(pp.clients, 1)
@@ -113,9 +161,7 @@ func c07Profile(variant string, faults bool, early bool) func(c *sim.RunCtx) {
 						w.onPutDone = func(op *storeOp, u *upload, err error) { perr = err }
 						w.exec(op)
 						w.onPutDone = nil
-						c.Picker.Fair = true
-						w.s.WaitUntil("drain", func() bool { return w.s.Quiescent(1) && w.s.PendingTimers() == 0 })
-						c.Picker.Fair = false
+						l.drain(w.s, l.opts)
 						if perr == nil || Code(perr).String() != "Unavailable" {
 							accepted = true
 							break
@@ -133,15 +179,29 @@ func c07Profile(variant string, faults bool, early bool) func(c *sim.RunCtx) {
 			return
 		}
 		e := lt.w.e
+		m.data.OnSyncStart, m.data.OnSyncDone, m.dir.OnOp = nil, nil, nil
+		if cfg.WConfig {
+			e.routineG = e.group.firstG
+			c.Count("wconfig_runs", 1)
+		}
 		c.Count("puts_ok", lt.w.putsOK)
 		c.Count("data_syncs", e.syncDone)
 		c.Count("state_writes", e.stateDone)
+		c.Count("media_syncs", len(msyncs))
+		c.Count("media_state_commits", len(mcommits))
 		c.Count("block_release_wakeups", len(releases))
 		c.Count("fault_sync_error", m.data.SyncErrs)
 		c.Count("fault_state_dir_error", m.dir.OpErrs)
 		retried := 0
 		for _, r := range e.rounds {
 			retried += r.DataSyncFailures
+		}
+		if cfg.WConfig {
+			for i, r := range msyncs {
+				if r.DoneSeq == 0 && i+1 < len(msyncs) {
+					retried++ // a failed Sync call followed by another one
+				}
+			}
 		}
 		c.Count("probe_sync_retried", retried)
 
@@ -174,10 +234,89 @@ func c07Profile(variant string, faults bool, early bool) func(c *sim.RunCtx) {
 			// anything is runnable
 			faults = true
 		}
+		// (2m/3m) the same two timed statements judged from the media alone
+		// (device Sync calls, state directory operations): this is what the
+		// W-config runs have, and in W-parts it cross-checks the recorder
+		if !faults {
+			var prev *mediaSync
+			for _, r := range msyncs {
+				if e.shutdownSeq > 0 && r.StartSeq >= e.shutdownSeq {
+					break
+				}
+				if prev != nil {
+					c.Count("probe_media_interval_checked", 1)
+					if r.StartT-prev.StartT < cfg.MinEpoch {
+						c.Fail("syncs-too-close", "two Sync calls on the data device started %v apart (at %v and %v), minimum epoch interval is %v", r.StartT-prev.StartT, prev.StartT, r.StartT, cfg.MinEpoch)
+						return
+					}
+				}
+				prev = r
+			}
+			for _, a := range acks {
+				if !cfg.WConfig {
+					break
+				}
+				if e.shutdownSeq > 0 && a.u.Return >= e.shutdownSeq {
+					continue
+				}
+				if len(model.objs[a.u.Obj].Content) == 0 {
+					continue // (the empty blob is never stored by a configured store)
+				}
+				// a Sync call that started while the upload was in progress may
+				// or may not cover it: not judged
+				ambiguous := false
+				var cover *mediaSync
+				for _, r := range msyncs {
+					if r.StartSeq > a.u.Invoke && r.StartSeq <= a.u.Return {
+						ambiguous = true
+						break
+					}
+					if r.StartSeq > a.u.Return {
+						cover = r
+						break
+					}
+				}
+				if ambiguous {
+					c.Count("timed_bound_skipped_sync_during_upload", 1)
+					continue
+				}
+				// certainly not evicted: fewer than old_blocks+1 further
+				// allocations up to now (the collector only has the total)
+				if quiescent == nil || quiescent.Allocs-a.u.AllocAt > cfg.Old {
+					c.Count("timed_bound_skipped_possibly_evicted", 1)
+					continue
+				}
+				if cover == nil {
+					c.Fail("upload-never-synced", "upload of o%d acknowledged at step %d was never followed by a Sync of the data device", a.u.Obj, a.u.Return)
+					return
+				}
+				c.Count("probe_timed_bound_checked", 1)
+				c.Count("probe_timed_bound_checked_wconfig", 1)
+				if cover.StartT > a.fT+cfg.MinEpoch {
+					c.Fail("sync-too-late", "upload of o%d returned at %v; the next Sync of the data device started at %v, more than the minimum epoch interval %v later", a.u.Obj, a.fT, cover.StartT, cfg.MinEpoch)
+					return
+				}
+				ok := false
+				for _, sw := range mcommits {
+					if cover.DoneSeq > 0 && sw.Seq >= cover.DoneSeq {
+						ok = true
+						if sw.T > cover.DoneT {
+							c.Fail("state-write-delayed", "state file covering o%d became durable at %v although the data device was synchronised at %v and I/O takes no simulated time", a.u.Obj, sw.T, cover.DoneT)
+							return
+						}
+						break
+					}
+				}
+				if !ok {
+					c.Fail("state-write-missing", "upload of o%d was synchronised but no state file was committed afterwards", a.u.Obj)
+					return
+				}
+			}
+		}
 		// (2) two sync rounds are never closer than the minimum epoch interval
 		// while the store is running (fault-free profile: time only moves when
 		// nothing is runnable, so the round starts when its timer fired)
-		if !faults {
+		if !faults && !cfg.WConfig {
 			var prev *syncRound
 			for _, r := range e.rounds {
 				if r.Final || (e.shutdownSeq > 0 && r.StartSeq >= e.shutdownSeq) {
